@@ -59,11 +59,22 @@ func (p *vPP) Primary()          {}
 func (p *vPP) Naming() string    { return p.nm }
 func (p *vPP) Qualifier() string { return p.q }
 
+// *vZA, *vZB: stateless (zero-sized) implementers of vI1; real Go gives all of them one address
+type vZA struct{}
+
+func (p *vZA) M1() int { return -2 }
+
+type vZB struct{}
+
+func (p *vZB) M1() int { return -3 }
+
 const (
 	tPA = iota
 	tPB
 	tPC
 	tPP
+	tZA
+	tZB
 	nProviderTypes
 )
 
@@ -75,6 +86,10 @@ func vMake(t int, a vAttr) any {
 		return &vPB{a}
 	case tPC:
 		return &vPC{a}
+	case tZA:
+		return &vZA{}
+	case tZB:
+		return &vZB{}
 	}
 	return &vPP{a}
 }
@@ -89,12 +104,16 @@ func vAttrOf(c any) (vAttr, int) {
 		return p.vAttr, tPC
 	case *vPP:
 		return p.vAttr, tPP
+	case *vZA:
+		return vAttr{id: -2}, tZA
+	case *vZB:
+		return vAttr{id: -3}, tZB
 	}
 	return vAttr{id: -1}, -1
 }
 
 // static facts about the provider types (the oracle's specification)
-var vImplI1 = [nProviderTypes]bool{tPA: true, tPB: true, tPC: false, tPP: true}
+var vImplI1 = [nProviderTypes]bool{tPA: true, tPB: true, tPC: false, tPP: true, tZA: true, tZB: true}
 var vIsPA = [nProviderTypes]bool{tPA: true}
 var vHookNoResult = [nProviderTypes]bool{tPA: true}
 var vHasQualifier = [nProviderTypes]bool{tPA: true, tPB: true, tPC: false, tPP: true}
@@ -291,7 +310,7 @@ func vCompatible(kind, t int) bool {
 // providers: k instances with symbolic type; at most one unnamed instance per type
 // (two unnamed components of one type share a default name and cannot both be registered).
 func vProviders(k int, withQ bool) ([]any, []int) {
-	return vProvidersOf(k, withQ, []int{tPA, tPB, tPC, tPP})
+	return vProvidersOf(k, withQ, []int{tPA, tPB, tPC, tPP, tZA, tZB})
 }
 
 func vProvidersOf(k int, withQ bool, types []int) ([]any, []int) {
@@ -301,7 +320,10 @@ func vProvidersOf(k int, withQ bool, types []int) ([]any, []int) {
 	for i := 0; i < k; i++ {
 		t := types[nd.Choose(len(types))]
 		a := vAttr{id: i}
-		if !unnamed[t] && nd.Bool() {
+		if t == tZA || t == tZB {
+			nd.Assume(!unnamed[t])
+			unnamed[t] = true
+		} else if !unnamed[t] && nd.Bool() {
 			unnamed[t] = true
 		} else {
 			a.nm = vNames[i]
@@ -320,7 +342,7 @@ func vProviderName(c any) string {
 	if a.nm != "" {
 		return a.nm
 	}
-	return []string{"github.com/go-kid/ioc/container/factory/vPA", "github.com/go-kid/ioc/container/factory/vPB", "github.com/go-kid/ioc/container/factory/vPC", "github.com/go-kid/ioc/container/factory/vPP"}[t]
+	return []string{"github.com/go-kid/ioc/container/factory/vPA", "github.com/go-kid/ioc/container/factory/vPB", "github.com/go-kid/ioc/container/factory/vPC", "github.com/go-kid/ioc/container/factory/vPP", "github.com/go-kid/ioc/container/factory/vZA", "github.com/go-kid/ioc/container/factory/vZB"}[t]
 }
 
 // ---------------------------------------------------------------------------
@@ -746,4 +768,86 @@ func VerifC08() {
 			nd.Assert(a.nm == "", "C10: a tie is broken only inside the top-ranked candidates")
 		}
 	}
+}
+
+// ---------------------------------------------------------------------------
+// C06: two DIFFERENT interface types that print the same (function-local types with
+// one name): type-directed candidates must be decided by type identity, not by name
+// ---------------------------------------------------------------------------
+
+func vLocalHolderA() (any, func() []any) {
+	type vLoc interface{ M1() int }
+	type hold struct {
+		nm string
+		F  []vLoc `wire:""`
+	}
+	h := &hold{nm: "hA"}
+	return h, func() []any {
+		var o []any
+		for _, e := range h.F {
+			o = append(o, e)
+		}
+		return o
+	}
+}
+
+func vLocalHolderB() (any, func() []any) {
+	type vLoc interface{ M2() int }
+	type hold struct {
+		nm string
+		F  []vLoc `wire:""`
+	}
+	h := &hold{nm: "hB"}
+	return h, func() []any {
+		var o []any
+		for _, e := range h.F {
+			o = append(o, e)
+		}
+		return o
+	}
+}
+
+func VerifC06SameName() {
+	k := nd.Param("K", 2)
+	r := newRHOrder(false)
+	ps, ts := vProvidersOf(k, false, []int{tPA, tPB, tPC})
+	hA, getA := vLocalHolderA()
+	hB, getB := vLocalHolderB()
+	r.register(hA, "hA")
+	r.register(hB, "hB")
+	for _, p := range ps {
+		r.register(p, vProviderName(p))
+	}
+	for _, m := range r.f.definitionRegistry.GetMetas() {
+		for _, pr := range m.GetComponentProperties() {
+			pr.SetArg(component_definition.ArgRequired, "false")
+		}
+	}
+	first, second := "hA", "hB"
+	if nd.Bool() {
+		first, second = second, first
+	}
+	_, e1 := r.f.doGetComponent(first)
+	_, e2 := r.f.doGetComponent(second)
+	nd.Assert(e1 == nil && e2 == nil, "C06: optional slice points never fail")
+	implI2 := [nProviderTypes]bool{tPB: true, tPC: true}
+	check := func(got []any, impl [nProviderTypes]bool) {
+		want := 0
+		for i, p := range ps {
+			if impl[ts[i]] {
+				want++
+				c := 0
+				for _, g := range got {
+					if g == p {
+						c++
+					}
+				}
+				nd.Assert(c == 1, "C06: every implementer of the field's interface appears exactly once")
+			}
+		}
+		nd.Assert(len(got) == want, "C06: only implementers of the field's own interface type are injected")
+	}
+	check(getA(), vImplI1)
+	check(getB(), implI2)
+	nd.Cover("two same-named interface types")
 }
